@@ -357,6 +357,10 @@ class BaseAccumulator:
         raise NotImplementedError()
 
     def intercept(self, element, varname, category, tentative):
+        if tentative is ABSENT:
+            # A variable that is only declared has no value yet: it is left
+            # out of the captures, like any variable that is not set
+            return self._call_with_snapshot(element, self._intercept)
         cap = Capture(element)
         self.captures[element.capture] = cap
         cap.names.append(varname)
